@@ -48,7 +48,8 @@ PROBES = ["eof_inside_block", "trailer_without_details_allow_empty", "trailer_wi
           "formatted_mid_history", "edit_through_retained_block_handle"]
 
 PKGS = ["hello", "lib-x1", "g++-12", "a.b"]
-VERS = ["1.0-1", "2:1.2~rc1-3", "0.1", "1.0-1ubuntu1", "3.0+dfsg-2"]
+VERS = ["1.0-1", "2:1.2~rc1-3", "0.1", "1.0-1ubuntu1", "3.0+dfsg-2",
+        "0:1.0-1", "1.00-1", "0.1-0"]      # the last three order-equal to earlier spellings
 DISTS = ["unstable", "experimental", "stable testing", "bookworm-security", "UNRELEASED"]
 URG = ["low", "medium", "HIGH", "emergency", "low (HIGH for users of x)"]
 AUTH = ["A B <a@b.org>", "Ünï Cöde <u@example.com>", "X <x@y>", "Mr. O'Neil, Jr. <o@n.ie>"]
